@@ -424,6 +424,16 @@ class Run:
         return "n%d" % self._fresh
 
 
+HARNESS_EXC = (TimeoutError, Undecided, MemoryError, RecursionError, KeyboardInterrupt, SystemExit)
+
+
+def reraise_harness(e):
+    """an exception that belongs to the verifier (budget alarm of the runner, undecided, resource limits) is never
+    an observation about the code under test: re-raise it instead of recording / absorbing it"""
+    if isinstance(e, HARNESS_EXC) or (isinstance(e, RuntimeError) and "re-execution" in str(e)):
+        raise e
+
+
 def call_sub(run, po, node, data, path):
     """call the (real or contract) process_object on a node and record the observation"""
     ev = {"path": path, "node": node, "before": run.dic.raw(), "ctor_lo": len(run.ctors), "log_lo": len(run.log)}
@@ -432,6 +442,7 @@ def call_sub(run, po, node, data, path):
         with run.log.as_("fut"):
             r = po(data, run.dic)
     except BaseException as e:
+        reraise_harness(e)
         ev.update(exc=e, after=run.dic.raw(), ctor_hi=len(run.ctors), log_hi=len(run.log))
         raise
     ev.update(ret=r, after=run.dic.raw(), ctor_hi=len(run.ctors), log_hi=len(run.log))
